@@ -40,7 +40,7 @@ HELPER_OBJS := $(addprefix $(B)/obj/bus/,$(addsuffix .o,$(HELPER_SRCS)))
 SIM_CXXFLAGS := -std=c++17 $(OPT) $(SAN) -Wall -Wno-unused-function -Isim -I$(CFG) -I$(REPO) -DDBUS_VERIF_SIM -DDBUS_COMPILATION -DHAVE_CONFIG_H -DDBUS_STATIC_BUILD -U_FORTIFY_SOURCE -D_FORTIFY_SOURCE=0 -pthread
 SIM_COMMON := sim/kernel/kernel sim/codec/wire sim/core/core
 SIM_COMMON_OBJS := $(addprefix $(B)/obj/,$(addsuffix .o,$(SIM_COMMON)))
-SIMBUS_SRCS := sim/harness/simbus sim/harness/busworld sim/harness/exec sim/harness/gen sim/model/busmodel sim/model/matchrule
+SIMBUS_SRCS := sim/harness/simbus sim/harness/busworld sim/harness/exec sim/harness/gen sim/model/busmodel sim/model/matchrule sim/model/policy
 SIMBUS_OBJS := $(addprefix $(B)/obj/,$(addsuffix .o,$(SIMBUS_SRCS)))
 SIMLIB_SRCS := sim/harness/simlib
 SIMLIB_OBJS := $(addprefix $(B)/obj/,$(addsuffix .o,$(SIMLIB_SRCS)))
